@@ -17,7 +17,7 @@ VERDICT = "c08_verdict"
 EXPLAIN = "c08_explain"
 CASES_PER_FILE = 120
 CASE_TIMEOUT = 5
-TIERS = {"quick": {"n": 2200}, "thorough": {"n": 16000, "exhaustive": True}}
+TIERS = {"quick": {"n": 1600}, "thorough": {"n": 16000, "exhaustive": True}}
 RULE = ("object graphs of <= 12 containers (list/tuple/dict/set/frozenset, empty ones included), leaves of 8 python "
         "types, sharing probability ~0.2 and back-edge (cycle) probability ~0.1, visit programs (ordered rules "
         "predicate -> drop | keep | new key/new leaf) over key, depth, path, leaf token, kind and len, or the "
@@ -311,6 +311,10 @@ def run_impl(case):
     sentinel = object()
     for pth in case.get("probes", []):
         tp = tuple(keyobj(k) for k in pth)
+        if pth and case.get("dotted") and all(type(x) is str and "." not in x for x in tp):
+            tp = ".".join(tp)                      # get_path also accepts 'a.b.0'
+        elif case.get("dotted"):
+            tp = list(tp)
         try:
             got = ["ok", ref_of(get_path(root, tp))]
         except PathAccessError:
@@ -649,6 +653,7 @@ def generate(rng, tier, n):
                     break
         yield {"nodes": nodes, "root": root, "visit": gen_prog(rng), "reraise": rng.choice([None, None, True, False, False]),
                "query": ["true"] if rng.random() < 0.35 else gen_pred(rng), "dc": rng.random() < 0.3,
+               "dotted": rng.random() < 0.5,
                "qraise": gen_pred(rng, 1) if rng.random() < 0.2 else None,
                "qreraise": rng.choice([None, None, False, True]),
                "probes": gen_probes(rng, nodes, root, rng.randint(0, 4))}
